@@ -7,8 +7,11 @@ pub fn query<'a>(
     expr: &'a str,
     context: &mut eval::model::Context,
 ) -> error::Result<'a, eval::model::Value> {
-    let (rest, q) = expr::parse(expr).map_err(|v| error::Error::ExprSyntax(v.to_string()))?;
-    if !rest.is_empty() {
+    // White space is allowed before the first and after the last token as well.
+    let space = [' ', '\t', '\r', '\n'];
+    let (rest, q) = expr::parse(expr.trim_start_matches(space))
+        .map_err(|v| error::Error::ExprSyntax(v.to_string()))?;
+    if !rest.trim_start_matches(space).is_empty() {
         return Err(error::Error::ExprRemain(rest));
     }
 
